@@ -12,7 +12,7 @@ PROP = dict(
                "callback and session options) next to the declarative property (never below TLS 1.2; verification skipped only when "
                "asked and no server name; exactly the supplied roots, system pool only when none; values carried unchanged; exactly the "
                "supplied client certificate; unusable material is an error) and a handshake sub-model. TLC checks the transcription "
-               "against the property and the handshake consequences on all 777 600 lattice points; the driver calls TLSClientAuth, "
+               "against the property and the handshake consequences on all 1 555 200 lattice points; the driver calls TLSClientAuth, "
                "TLSTransport and TLSClient on real, freshly generated key material for every point and runs real handshakes against "
                "five in-process TLS servers; every projection and handshake outcome is validated against the spec.",
     level_note="exhaustive over the abstract lattice (finite); the real code is bound by trace validation on one concrete rendering of "
@@ -23,11 +23,13 @@ PROP = dict(
     exhaustive=True,
     rule="case = one point of the option lattice {cert file: none/RSA/EC/unreadable/garbage} x {loaded cert: none/RSA/EC} x {key file: "
          "none/RSA/EC/other/unreadable/garbage} x {loaded key: none/RSA/EC/other RSA/other EC/ed25519} x {CA file: none/ca1/ca2/"
-         "unreadable/garbage} x {loaded CA} x {pool} x server name x insecure x callback x tickets x cache, rendered with key "
+         "unreadable/garbage} x {loaded CA} x {pool} x server name {none, DNS name, IPv4 literal, IPv6 literal} x insecure x callback x tickets x cache, rendered with key "
          "material generated for the run. quick: the whole material lattice x server name x insecure with the three copy-through "
          "flags rotating, plus all 32 flag combinations on a core sub-lattice; thorough: the full cross product. Handshakes with "
          "5 servers (trusted CA, other CA, wrong name, client certificate required, TLS<=1.1 only) on the error-free points whose "
-         "ignored key slots are plain. Non-trivial: any certificate, CA, server-name or insecure option set; distinct by hash.",
+         "ignored key slots are plain. History cases: configuration from files / loaded material, handshake, the certificate and key files "
+         "are replaced by another valid pair / half rotated / removed, new handshakes with the same config and a clone must present "
+         "the certificate supplied at configuration time. Non-trivial: any certificate, CA, server-name or insecure option set; distinct by hash.",
     assumptions=COMMON_ASSUME + [
         "crypto/tls, crypto/x509 are the reference for handshakes; the system certificate pool does not contain the CAs generated for the run",
         "documented precedence is part of 'the supplied' material: certificate file before loaded certificate, loaded CA before CA file (an ignored CA file is not read: IgnoredCAFileNotRead), pool combined with either, key slots without a certificate slot are ignored (KeyWithoutCertIgnored)",
